@@ -1308,6 +1308,31 @@ impl<'tcx> Cx<'tcx> {
         }
         root.put("instances", J::Arr(insts));
 
+        // --- public (nameable from outside) paths of local definitions, following `pub use`
+        {
+            let mut pub_paths: Vec<J> = Vec::new();
+            let mut seen: FxHashSet<DefId> = FxHashSet::default();
+            let mut q: VecDeque<(LocalDefId, String)> = VecDeque::new();
+            q.push_back((rustc_hir::def_id::CRATE_DEF_ID, tcx.crate_name(LOCAL_CRATE).to_string()));
+            while let Some((m, mpath)) = q.pop_front() {
+                for child in tcx.module_children_local(m) {
+                    if !child.vis.is_public() {
+                        continue;
+                    }
+                    if let rustc_hir::def::Res::Def(kind, did) = child.res {
+                        let p = format!("{}::{}", mpath, child.ident.name);
+                        if seen.insert(did) {
+                            pub_paths.push(J::obj().set("def", J::s(self.path(did))).set("key", J::s(self.key(did))).set("public", J::s(p.clone())).set("kind", J::s(format!("{:?}", kind))));
+                            if let (DefKind::Mod, Some(l)) = (kind, did.as_local()) {
+                                q.push_back((l, p));
+                            }
+                        }
+                    }
+                }
+            }
+            root.put("pub_paths", J::Arr(pub_paths));
+        }
+
         root.put("items", J::Arr(items));
         root.put("adts", J::Arr(adts));
         root.put("traits", J::Arr(traits));
